@@ -8409,7 +8409,8 @@ func NewLsTLVSrCapabilities(l *LsSrCapabilities) *LsTLVSrCapabilities {
 		flags = flags | 1<<6
 	}
 	ranges := []LsSrLabelRange{}
-	var length uint16
+	// Flags(1) + Reserved(1); every range adds Range Size(3) + SID/Label sub-TLV(4+4)
+	length := uint16(2)
 	for _, r := range l.Ranges {
 		ranges = append(ranges, LsSrLabelRange{
 			Range: r.End - r.Begin,
@@ -8421,7 +8422,7 @@ func NewLsTLVSrCapabilities(l *LsSrCapabilities) *LsTLVSrCapabilities {
 				SID: r.Begin,
 			},
 		})
-		length += 4
+		length += 3 + tlvHdrLen + 4
 	}
 	return &LsTLVSrCapabilities{
 		LsTLV: LsTLV{
